@@ -19,16 +19,21 @@ func vsSigOK(sig *pocec.Signature, h []byte, pk *pocec.PublicKey) bool {
 func VsH_Sign() {
 	kmc, a, pub, priv, id := vsNewWallet()
 	h := vsNondetBytes(32, "digest")
-	hist := vsFork(6, "history")
+	hist := vsFork(7, "history")
 	if hist == 1 || hist == 5 {
 		vsAssume(kmc.Unlock(priv) == nil) // keys issued while unlocked (private derivation)
 	}
 	// one internal address first, then a plot key (external), so that re-derivation visits an external key after an internal one
-	in, err := kmc.NextAddresses(id, true, 1)
-	vsAssume(err == nil && len(in) == 1)
+	// (the export/import history runs with the plot key only, so that the two branch counts in the file differ)
+	withInternal := hist != 6
+	var pkI *pocec.PublicKey
+	if withInternal {
+		in, err := kmc.NextAddresses(id, true, 1)
+		vsAssume(err == nil && len(in) == 1)
+		pkI = in[0].pubKey
+	}
 	pkE, _, err := kmc.GenerateNewPublicKey()
 	vsAssume(err == nil && pkE != nil)
-	pkI := in[0].pubKey
 	cur := priv
 	switch hist {
 	case 0, 1:
@@ -46,6 +51,17 @@ func VsH_Sign() {
 		vsAssume(string(np) != string(priv) && string(np) != string(pub))
 		vsAssume(kmc.ChangePrivPassphrase(priv, np, &ScryptOptions{N: 16, R: 8, P: 1}) == nil)
 		cur = np
+	case 6: // export, then import into another (empty) wallet: the keys issued here must sign there
+		file, err := kmc.ExportKeystore(id, priv)
+		vsAssume(err == nil)
+		vsStore = &vsStoreT{root: &vsBkt{name: ""}}
+		k2, err := NewKeystoreManagerForPoC(vsDBT{}, pub, vsParams)
+		vsAssume(err == nil)
+		id2, _, err := k2.ImportKeystore(file, priv, nil)
+		vsAssume(err == nil && id2 == id)
+		kmc = k2
+		a = kmc.managedKeystores[id]
+		vsAssume(a != nil)
 	case 4, 5: // restart
 		k2, err := NewKeystoreManagerForPoC(vsDBT{}, pub, vsParams)
 		vsAssume(err == nil)
@@ -57,15 +73,20 @@ func VsH_Sign() {
 		vsAssume(!kmc.IsLocked() && a.unlocked)
 	}
 	pE, _ := pocec.ParsePubKey(pkE.SerializeCompressed(), pocec.S256())
-	pI, _ := pocec.ParsePubKey(pkI.SerializeCompressed(), pocec.S256())
+	pI := pE
+	if withInternal {
+		pI, _ = pocec.ParsePubKey(pkI.SerializeCompressed(), pocec.S256())
+	}
 	sE, err := kmc.SignHash(pE, h)
 	vsAssert(err == nil && sE != nil, "plot-key-signs-when-unlocked")
 	vsAssume(err == nil && sE != nil)
 	vsAssert(vsSigOK(sE, h, pE), "signature-verifies-under-the-requested-plot-key")
-	sI, err := kmc.SignHash(pI, h)
-	vsAssert(err == nil && sI != nil, "internal-key-signs-when-unlocked")
-	vsAssume(err == nil && sI != nil)
-	vsAssert(vsSigOK(sI, h, pI), "signature-verifies-under-the-requested-internal-key")
+	if withInternal {
+		sI, err := kmc.SignHash(pI, h)
+		vsAssert(err == nil && sI != nil, "internal-key-signs-when-unlocked")
+		vsAssume(err == nil && sI != nil)
+		vsAssert(vsSigOK(sI, h, pI), "signature-verifies-under-the-requested-internal-key")
+	}
 	// SignMessage signs the hash of the message
 	msg := vsNondetBytes(8, "message")
 	sM, err := kmc.SignMessage(pE, msg)
